@@ -166,7 +166,7 @@ func (v *Vue) evalBoundAttribute(ctx VueContext, attrName, expr string) (any, er
 	}
 
 	// Regular variable binding
-	valResolved, ok := ctx.stack.Resolve(expr)
+	valResolved, ok := v.resolveOperand(ctx, expr)
 	if ok {
 		return valResolved, nil
 	}
